@@ -71,6 +71,24 @@ func runC01(c *Ctx) error {
 			opts.MinGates = 100
 		}
 		circ := GenCircuit(r, opts)
+		overwrites := false
+		if i%60 == 59 {
+			// directed: a parser-accepted circuit whose first gate overwrites input
+			// wire 0 (the case the C01 theorem's wf hypothesis excludes; finding F35)
+			second := circuit.AND
+			if (i/60)%2 == 1 {
+				second = circuit.OR
+			}
+			circ = &circuit.Circuit{NumGates: 2, NumWires: 3,
+				Gates: []circuit.Gate{{Input0: 0, Input1: 1, Output: 0, Op: circuit.XOR},
+					{Input0: 0, Input1: 1, Output: 2, Op: second}},
+				Inputs:  circuit.IO{{Name: "a", Type: uintInfo(2)}},
+				Outputs: circuit.IO{{Name: "r", Type: uintInfo(1)}}}
+			circ.Stats[circuit.XOR]++
+			circ.Stats[second]++
+			overwrites = true
+			c.Hist("circuit:gate-writes-input-wire")
+		}
 		key := r.Bytes(keyLens[i%3])
 		ni := circ.Inputs.Size()
 		no := circ.Outputs.Size()
@@ -155,7 +173,11 @@ func runC01(c *Ctx) error {
 				}
 				key2 := fmt.Sprintf("%s|%x|%s|%d", circuitText(circ), key, bitsString(x), round)
 				c.Eval(key2, circ.Stats[circuit.AND]+circ.Stats[circuit.OR]+circ.Stats[circuit.INV] > 0)
-				if bad != "" {
+				if bad != "" && overwrites {
+					c.Fail("c01:gate-writes-input-wire:garbled-evaluation-fails", "a circuit whose gate overwrites an input wire (accepted by the parsers) cannot be evaluated garbled: "+bad,
+						c01Replay{Seed: c.Seed, Case: i, Round: round, Circuit: circuitText(circ),
+							Key: fmt.Sprintf("%x", key), X: bitsString(x), Got: bitsString(got), Want: bitsString(want)})
+				} else if bad != "" {
 					c.Fail("c01:"+bad, bad, c01Replay{Seed: c.Seed, Case: i, Round: round, Circuit: circuitText(circ),
 						Key: fmt.Sprintf("%x", key), X: bitsString(x), Got: bitsString(got), Want: bitsString(want)})
 				}
